@@ -142,7 +142,18 @@ func c19PolicyProbeHosts() []string {
 var c19NameProbes = []string{"localhost", "LocalHost", "c19-does-not-resolve.invalid"}
 
 // c19ResolveName is the harness's own resolution of a probe name (standard library, same resolver).
+var c19ResolvedNames = map[string]net.IP{}
+
 func c19ResolveName(n string) net.IP {
+	if ip, ok := c19ResolvedNames[n]; ok {
+		return ip
+	}
+	ip := c19ResolveNameUncached(n)
+	c19ResolvedNames[n] = ip
+	return ip
+}
+
+func c19ResolveNameUncached(n string) net.IP {
 	a, err := net.ResolveIPAddr("ip", n)
 	if err != nil || a == nil || len(a.IP) == 0 {
 		return nil
